@@ -304,7 +304,32 @@ _S = ["therm.getInterdiffusivity: fresh symbolic diffusivity (scalar or matrix) 
       "CompositionProfile.buildProfile: identity (initial profile symbolic)"]
 B1 = [((None, None),), ((FLUX, FLUX),), ((COMP, FLUX),), ((FLUX, COMP),), ((COMP, COMP),)]
 B2 = [((None, None), (COMP, None)), ((FLUX, COMP), (COMP, FLUX)), ((COMP, COMP), (FLUX, FLUX))]
+def homog_dt(ctx, nel=1, N=3, uniform=False):
+    """real HomogenizationModel.getDt on an arbitrary rate field (also the all-zero one of a uniform profile): no internal error, a positive
+    step, and no node changes by more than maxCompositionChange within it"""
+    els = ELS[:nel + 1]
+    m = HomogenizationModel([0.0, 1.0], N, els, ["P"], record=False)
+    mc = ctx.real("maxCompositionChange", (0.001, 0.01)); ctx.assume(mc > 0)
+    m.constraints.maxCompositionChange = mc
+    if uniform:
+        d = np.zeros((nel, N))
+    else:
+        d = ctx.reals("dxdt", (nel, N), (-1.0, 1.0))
+    dt = m.getDt([d])
+    if isinstance(dt, (float, np.floating)) and np.isinf(dt):
+        ctx.prove("time step is positive", dt > 0)
+        ctx.prove("an unlimited step is returned only when nothing changes", ctx.all([ctx.eq(d[e, i], 0.0) for e in range(nel) for i in range(N)]) if not uniform else True)
+        return
+    ctx.prove("time step is positive", ctx.lt(0.0 * mc, dt))
+    for e in range(nel):
+        for i in range(N):
+            a = d[e, i]
+            ctx.prove("no node changes by more than maxCompositionChange within the step", ctx.all([ctx.le(a * dt, mc), ctx.le(-a * dt, mc)]))
+
+
 HARNESSES = [
+    Harness("C04.homog_dt", homog_dt, functions=[HomogenizationModel.getDt], assumptions=["maxCompositionChange > 0; rate field arbitrary, including exactly zero entries and the all-zero field"],
+            bounds={"nodes": "N"}, params={"quick": [{"nel": 1, "N": 2}, {"nel": 1, "N": 3, "uniform": True}], "thorough": [{"nel": 1, "N": 3}, {"nel": 2, "N": 2}, {"nel": 2, "N": 3, "uniform": True}]}),
     Harness("C04.single", single, functions=_F, assumptions=_A, stubs=_S, bounds={"solutes": "nel", "nodes": "N"},
             params={"quick": [{"nel": 1, "N": 3, "bcs": b} for b in B1] + [{"nel": 2, "N": 3, "bcs": b} for b in B2] + [{"nel": 2, "N": 3, "bcs": B2[0], "order": [1, 0]}] +
                              [{"nel": 1, "N": 3, "bcs": B1[3], "strnames": True}, {"nel": 2, "N": 3, "bcs": B2[1], "strnames": True}, {"nel": 1, "N": 3, "bcs": B1[0], "other_first": True},
